@@ -105,6 +105,9 @@ def check_pair(P, Q):
     for x, other, nm in ((pa, pb, "A.intersections(B)"), (pb, pa, "B.intersections(A)")):
         for q in x:
             if not any(math.hypot(q[0] - r[0], q[1] - r[1]) <= 2 * tol for r in other):
+                graze = not any(math.hypot(q[0] - cr.bez(P, t)[0], q[1] - cr.bez(P, t)[1]) <= 3 * tol for t, _ in ref)
+                if graze and any(math.hypot(q[0] - r[0], q[1] - r[1]) <= 5 * tol for r in other):
+                    return "K12"
                 return "operand order: point %r reported by %s has no counterpart in the other order" % (q, nm)
     return None
 
@@ -355,7 +358,7 @@ def search(ctx, budget):
             nontriv += 1
         if msg:
             viol.append({"what": msg, "kind": kind, "input": inp})
-            if len([v for v in viol if v["what"] not in ("K3", "K11")]) >= 5:
+            if len([v for v in viol if v["what"] not in ("K3", "K11", "K12")]) >= 5:
                 break
         if len(samples) < 3:
             samples.append(inp)
@@ -363,7 +366,7 @@ def search(ctx, budget):
 
 
 def classify(v, entry):
-    return entry["id"] in ("K3", "K11") and v.get("what") == entry["id"]
+    return entry["id"] in ("K3", "K11", "K12") and v.get("what") == entry["id"]
 
 
 def replay(v):
